@@ -58,7 +58,7 @@ Qed.
 (* ---- every block has the size of its count ------------------------------- *)
 Definition pc_items (p : apc) : list (nat * positive) :=
   match p with
-  | GDecRel b | RInc b | RPush b => [(b, 1%positive)]
+  | GDecRel b | RInc b | RPush b | RUndo b => [(b, 1%positive)]
   | RSub b cnt => [(b, cnt)]
   | _ => []
   end.
@@ -112,9 +112,9 @@ Lemma give_recv {A B} (f : A -> list B) l t u p q r e : nth_error l t = Some p -
   nth_error (upd l t q) u = Some r -> In e (f r) -> In e (f q) \/ In e (flatT f l).
 Proof. intros Ht Hu He. eapply in_flat_upd; [exact Ht|]. eapply in_flatT; eassumption. Qed.
 
-Lemma sinv_step P fails c t : SInv P c -> SInv P (astep P fails c t).
+Lemma sinv_step fx P fails c t : SInv P c -> SInv P (astep fx P fails c t).
 Proof.
-  intros H. unfold astep, alloc_path. destruct (nth_error (a_thr c) t) as [th|] eqn:E; [|assumption].
+  intros H. unfold astep, alloc_path, free_path. destruct (nth_error (a_thr c) t) as [th|] eqn:E; [|assumption].
   break_step; try give_absurd; try assumption;
     intros e He; unfold all_items in He; cfg_simpl; apply in_app_or in He.
   all: destruct He as [He|He];
@@ -146,8 +146,11 @@ Qed.
 
 Lemma sinv_init P progs : SInv P (ainit progs).
 Proof. intros e He. unfold all_items, ainit in He; cbn [a_thr a_lifo map] in He. rewrite flatT_map_nil in He by reflexivity. destruct He. Qed.
+Lemma sinv_run_gen fx P fails progs sched : SInv P (arun_gen fx P fails (ainit progs) sched).
+Proof. unfold arun_gen. apply fold_left_inv; [intros a b; apply sinv_step | apply sinv_init]. Qed.
+
 Lemma sinv_run P fails progs sched : SInv P (arun P fails (ainit progs) sched).
-Proof. unfold arun. apply fold_left_inv; [intros a b; apply sinv_step | apply sinv_init]. Qed.
+Proof. apply sinv_run_gen. Qed.
 
 (* every block a thread holds was allocated with the size of its element count; cached blocks have the size of one element *)
 Theorem arena_block_sizes P fails progs sched :
